@@ -33,7 +33,16 @@ def register(OPS, drv):
 
     def op_gm_world(job):
         """job: tree, config, maps: [selector], requests: [{data, tls}]"""
-        w = drv.World(job)
+        w = drv.World(job)            # job["server_port"]: the port this server advertises (World sets drv.SERVER_PORT)
+        fake = drv.FakeServer
+        if job.get("server_name"):    # ... and the name it goes by (server.server_name)
+            name = job["server_name"]
+
+            class NamedServer(fake):
+                def __init__(self, config, name=name, port=70):
+                    fake.__init__(self, config, name=name, port=port)
+
+            drv.FakeServer = NamedServer
         try:
             comps = [prepare_entries(w.config, s) for s in job.get("maps", [])]
             res = []
@@ -41,6 +50,7 @@ def register(OPS, drv):
                 res.append(drv.serve_once(w.config, drv.s2b(r["data"]), tls=r.get("tls", False)))
             return {"components": comps, "results": res}
         finally:
+            drv.FakeServer = fake
             w.close()
 
     def op_gm_select(job):
@@ -198,7 +208,9 @@ def register(OPS, drv):
         spec = dict(job)
         cfg = dict(spec.get("config") or {})
         pg = dict(cfg.get("pygopherd", {}))
-        pg.update({"servername": "gopher.example", "advertisedport": "70", "timeout": "20"})
+        pg.update({"servername": job.get("servername", "gopher.example"), "timeout": "20"})
+        if job.get("advertisedport", "70") is not None:      # None: the server advertises the port it listens on
+            pg["advertisedport"] = str(job.get("advertisedport", "70"))
         cfg["pygopherd"] = pg
         spec["config"] = cfg
         w = drv.World(spec)
@@ -243,7 +255,7 @@ def register(OPS, drv):
                 for t in ts:
                     t.join(timeout=30)
                 rounds.append(res)
-            return {"sequential": sequential, "rounds": rounds}
+            return {"sequential": sequential, "rounds": rounds, "listen_port": srv.server_address[1]}
         finally:
             srv.shutdown()
             srv.server_close()
